@@ -81,14 +81,24 @@ impl SubCheck for ReplaceDate {
         "case = (date, field 0 year | 1 month | 2 month0 | 3 day | 4 day0 | 5 ordinal | 6 ordinal0, value over the full i32/u32 range, time); NaiveDate/NaiveDateTime::with_* = the date with that one field replaced, or None; non-trivial = the replacement does not exist (Feb 29 into a common year, day beyond the month, ordinal 366), value at limit/limit+1 or an integer extreme, or year at a range end"
     }
     fn strategy(&self) -> Option<BoxedStrategy<Self::Case>> {
+        // dates next to the places where year types differ: end of February, year ends, in years next to
+        // multiples of 400 / 100 / 4
+        let special = (-655i64..=655, proptest::sample::select(vec![400i64, 100, 4, 1]), -1i64..=1, proptest::sample::select(vec![(1u32, 1u32), (2, 28), (2, 29), (3, 1), (12, 30), (12, 31), (1, 31), (6, 15)]))
+            .prop_map(|(k, m, dy, (mo, da))| {
+                let y = ((k * m).clamp(-262_000, 262_000) + dy).clamp(cal::MIN_YEAR, cal::MAX_YEAR);
+                cal::days_from_civil(y, mo, da.min(cal::days_in_month(y, mo)))
+            });
         Some(
-            (gen::day(), 0u8..7, tod())
+            (prop_oneof![3 => gen::day(), 2 => special], 0u8..7, tod())
                 .prop_flat_map(|(z, f, t)| {
+                    let y0 = cal::civil_from_days(z).0;
                     let v = match f {
                         0 => prop_oneof![
                             2 => (cal::MIN_YEAR - 3..=cal::MAX_YEAR + 3),
                             2 => gen::i32_edges().prop_map(|v| v as i64),
                             2 => -100i64..2500,
+                            // relative to the source year: the periods of the calendar and their neighbours
+                            3 => (proptest::sample::select(vec![0i64, 1, 4, 28, 56, 84, 100, 200, 300, 400, 2800]), any::<bool>(), -1i64..=1).prop_map(move |(d, neg, e)| y0 + if neg { -d } else { d } + e),
                         ]
                         .boxed(),
                         1 | 2 => gen::u32_edges(vec![11, 12, 13]).prop_map(|v| v as i64).boxed(),
